@@ -6,7 +6,7 @@
   Signatures enter as *verification facts*: `vk` is the bit mask of the key ids under which the object's signature
   verifies (computed with the real `ECCrypto.is_valid_signature`).  This is the abstract crypto interface of this
   model: no law about it is needed for "only if" statements; the single law used (a node's own fresh signature
-  verifies under its own key) is the explicit structure field `SignLaw.own_verifies`.
+  verifies under its own key) is built into the model (`ownAtt`, lemma `verifies_own`).
 -/
 namespace Ipv8.C17
 
